@@ -454,8 +454,47 @@ def cmd_report(show=True):
         print(len(rows), "survivors that pass the pinned tests")
 
 
+def cmd_rejudge(jobs=8):
+    """survivors that pass the pinned tests, judged again with the current checker -> results2.jsonl"""
+    cov = coverage_map()
+    allprops = [f"C{i:02d}" for i in range(1, 21)]
+    res = load_results("results.jsonl")
+    tests = load_results("tests.jsonl")
+    done = load_results("results2.jsonl")
+    muts = {m["id"]: m for m in load_mutants()}
+    todo = [muts[i] for i, r in res.items() if r["status"] in ("silent", "analysis-error") and tests.get(i, {}).get("tests") == "pass" and i not in done]
+    print(len(todo), "survivors to judge again", flush=True)
+    with open(MF / "results2.jsonl", "a") as f, ThreadPoolExecutor(jobs) as ex:
+        for k, r in enumerate(ex.map(lambda m: judge(m, cov, allprops), todo)):
+            f.write(json.dumps(r) + "\n")
+            f.flush()
+            if k % 25 == 0:
+                print(k, r["id"], r["status"], flush=True)
+
+
+def cmd_report2():
+    muts = {m["id"]: m for m in load_mutants()}
+    res = load_results("results2.jsonl")
+    from collections import Counter
+    print("rejudged", len(res), dict(Counter(r["status"] for r in res.values())))
+    rows = []
+    for i, r in res.items():
+        if r["status"] != "detected":
+            m = muts[i]
+            rows.append((m["file"], m["function"], m["line"], i, r["status"], m["kind"], m["old"].replace("\n", " ")[:50], m["new"].replace("\n", " ")[:50],
+                         "; ".join(f"{p}:{f[:110]}" for p, f in r.get("first", {}).items())))
+    for row in sorted(rows):
+        print(" | ".join(str(x) for x in row))
+
+
 if __name__ == "__main__":
     cmd = sys.argv[1]
+    if cmd == "rejudge":
+        cmd_rejudge(jobs=int(os.environ.get("JOBS", "8")))
+        sys.exit(0)
+    if cmd == "report2":
+        cmd_report2()
+        sys.exit(0)
     if cmd == "gen":
         cmd_gen()
     elif cmd == "run":
